@@ -1,5 +1,5 @@
 ---------------------------- MODULE Trace_Gzip ----------------------------
-(* {"id":n, "cfg":{"version","ctype","ae","pre"},
+(* {"id":n, "cfg":{"method","version","ctype","ae","pre"},   (method HEAD: obs also has "gout","geof" = the GET response)
     "ev":[{"a":"write","args":[[[n,b],..]],"obs":{"err":..}}, {"a":"flush",..}, {"a":"finish","args":[runs],..},
           {"a":"end",..}, {"a":"response","args":[],"obs":{"out":[..],"eof":b,"gz":{"used":b,"ok":b,"enc":[..],"dec":[..]}}}]}
    The raw bytes are delimited by the strict reader inside TLC; gz is the harness's stdlib gunzip of
@@ -13,7 +13,7 @@ C == Traces[tid].cfg
 TraceInit ==
     /\ tid \in 1..Len(Traces)
     /\ l = 1
-    /\ InitWith([version |-> C.version, ctype |-> C.ctype, ae |-> C.ae, pre |-> C.pre])
+    /\ InitWith([method |-> C.method, version |-> C.version, ctype |-> C.ctype, ae |-> C.ae, pre |-> C.pre])
 IsEvent(a) == l <= Len(Ev) /\ Ev[l].a = a /\ l' = l + 1 /\ UNCHANGED tid
 Bind == (run' = "raised") = (Ev[l].obs.err # "none")
 TrWrite == IsEvent("write") /\ WriteRuns(Ev[l].args[1]) /\ Bind
@@ -23,7 +23,9 @@ TrEnd == IsEvent("end") /\ End /\ Bind
 TrResponse ==
     /\ IsEvent("response")
     /\ run # "running"
-    /\ Transparent(ParseResp(Ev[l].obs.out, Ev[l].obs.eof, FALSE), Ev[l].obs.gz)
+    /\ IF cfg.method = "HEAD"
+          THEN HeadMatchesGet(ParseResp(Ev[l].obs.out, Ev[l].obs.eof, TRUE), ParseResp(Ev[l].obs.gout, Ev[l].obs.geof, FALSE))
+          ELSE Transparent(ParseResp(Ev[l].obs.out, Ev[l].obs.eof, FALSE), Ev[l].obs.gz)
     /\ UNCHANGED <<vars, step>>
 TraceNext == TrWrite \/ TrFlush \/ TrFinish \/ TrEnd \/ TrResponse
 TraceSpec == TraceInit /\ [][TraceNext]_<<vars, step, tid, l>>
